@@ -124,6 +124,7 @@ type RunStats struct {
 	ParamsUsed                                                               map[string]int
 	Tracks                                                                   []*trackState
 	MaxDepth                                                                 int
+	VioCounts                                                                map[string]int
 }
 
 // cpuSem bounds the number of paths executing at once across all concurrently running explorers.
@@ -456,8 +457,12 @@ func (ex *Explorer) runPath(tt *TT, sol *Solver, fnInfos map[*ssa.Function]*fnIn
 		}
 	}
 	for _, v := range vios {
-		key := v.Kind + "|" + v.ID
+		key := v.Kind + "|" + v.ID + "|" + v.Tag
 		ex.seenVio[key]++
+		if st.VioCounts == nil {
+			st.VioCounts = map[string]int{}
+		}
+		st.VioCounts[key]++
 		if ex.seenVio[key] <= ex.maxViol {
 			st.Violations = append(st.Violations, v)
 		}
